@@ -119,7 +119,7 @@ def c06_single(E, w=W_QUICK):
 def c06_double(E, w=W_QUICK):
     m, ids, direction = _model(E, w)
     entity = E.pick("entity", ["reaction", "gene"])
-    shape = E.pick("lists", ["None,None", "partial,None", "partial,overlapping", "ids,objects"])
+    shape = E.pick("lists", ["None,None", "partial,None", "partial,overlapping", "ids,objects", "shared-item-first"])
     pool = ids if entity == "reaction" else GENES
     dl = m.reactions if entity == "reaction" else m.genes
     if shape == "None,None":
@@ -132,6 +132,11 @@ def c06_double(E, w=W_QUICK):
     elif shape == "partial,overlapping":
         l1 = [pool[0], pool[1]]
         l2 = [pool[1], pool[0], pool[3]]
+        a1, a2 = list(l1), list(l2)
+    elif shape == "shared-item-first":
+        # an item of both lists comes before an item that is in the first list only
+        l1 = [pool[1], pool[0]]
+        l2 = [pool[1], pool[3]]
         a1, a2 = list(l1), list(l2)
     else:
         l1 = [pool[3], pool[1]]
@@ -180,7 +185,7 @@ def c06_essential(E, w=W_QUICK):
 
 def c06_moma(E, w=(("EX_A",), ("DM_B",))):
     """linear MOMA deletions: growth = original objective at a minimal-adjustment solution"""
-    tid = E.pick("template", ["T8", "T9"])
+    tid = E.pick("template", ["T8", "T9", "T11"])
     if tid == "T8":
         m, ids, direction = _model(E, w)
         if direction == "min":
@@ -188,12 +193,12 @@ def c06_moma(E, w=(("EX_A",), ("DM_B",))):
         rules = RULES
     else:
         env.for_path(E)
-        m = networks.build("T9")
+        m = networks.build(tid)
         ids = [r.id for r in m.reactions]
-        networks.symbolic_bounds(E, m, which=[E.pick("symbolic_reaction", ["DRAIN", "EX_A"])])
+        networks.symbolic_bounds(E, m, which=[E.pick("symbolic_reaction", ["DRAIN", "EX_A"] if tid == "T9" else ["DRAIN", "SRC"])])
         m.objective = "DM_B"
         direction = "max"
-        rules = {"R1": "g1", "DRAIN": "g2"}
+        rules = {"R1": "g1", "DRAIN": "g2"} if tid == "T9" else {"SRC": "g1", "DRAIN": "g2"}
     entity = E.pick("entity", ["reaction", "gene"])
     refkind = E.pick("reference", ["pfba", "optimize", "pfba-other-order"])
     try:
@@ -208,8 +213,10 @@ def c06_moma(E, w=(("EX_A",), ("DM_B",))):
     E.note(template=tid, entity=entity, reference=refkind)
     if tid == "T8":
         pool = ["R1", "R2"] if entity == "reaction" else ["g3", "g2"]
-    else:
+    elif tid == "T9":
         pool = ["DRAIN", "R1"] if entity == "reaction" else ["g2", "g1"]
+    else:
+        pool = ["DRAIN", "SRC"] if entity == "reaction" else ["g2", "g1"]
 
     def zeroed_of(x):
         if entity == "reaction":
